@@ -342,7 +342,7 @@ pub fn property() -> Property {
         id: "C04",
         rule: "case = (builder, one value per numeric parameter from the boundary grid {far below, just below, at, just inside, far inside, at / just \
                above an upper bound} of its documented range, dataset seed). Enumerated: every single-parameter boundary row and every pair of \
-               parameters x pair of grid values (others default), and the full product of all grids for every builder whose product has <= 2500 points (quick) / for every builder (thorough); random: full assignments (all-valid / one free parameter / all free). \
+               parameters x pair of grid values (others default), and the full product of all grids for every builder whose product has <= 2500 points (quick) / for every builder whose product has <= 60 000 points (thorough); random: full assignments (all-valid / one free parameter / all free). \
                Non-trivial = at least one out-of-range value together with at least one in-range non-default value; distinct = distinct canonical JSON. \
                History sub-checks: two assignments v1, v2 (constructor-only parameters shared); a builder is configured with v1, one of {check_ref, check on a copy, \
                training entry point} runs on it, then the same builder or a clone of it is re-configured to v2 through the setters and must be indistinguishable from a \
@@ -351,7 +351,7 @@ pub fn property() -> Property {
         assumptions: builders::assumptions(),
         subs: vec![
             prop_sub("random_combinations", 40000, 1200000, |_t: Tier| combo_strategy(), check_case).chunks(16),
-            enum_sub("full_product", |t: Tier| full_product(t.pick(2500, 400_000)), check_case).chunks(16),
+            enum_sub("full_product", |t: Tier| full_product(t.pick(2500, 60_000)), check_case).chunks(16),
             enum_sub("pair_rows", |_t: Tier| pair_rows(), check_case).chunks(16),
             enum_sub("single_rows", |_t: Tier| single_rows(), check_case).chunks(8),
             prop_sub("history_random", 30000, 600000, |_t: Tier| history_strategy(), check_case).chunks(16),
